@@ -57,6 +57,9 @@ def run(ctx):
         pws0 = gen_passwords.gen_list(rng, n=rng.randint(6, 22), tame=True, dup_rate=0.3, family=(True if i == 0 else None))
         if i == 0:
             pws0 += gen_passwords.CASED_SYMBOL_CORPUS      # symbols that str.lower() changes, in front of / behind letter runs
+            pws0 += gen_passwords.CONTEXT_CASE_CORPUS      # context strings in a capitalisation the trainer's list does not contain
+        if i == 1:
+            pws0 = gen_passwords.FRESH_LENGTHS_CORPUS + pws0
         pws = []
         for p in pws0:
             try:
